@@ -3,6 +3,6 @@ P('C12', shards=16, race=True,
   technique='property-based concurrency testing (rapid-generated writer scripts and reader loops around the 256-entry switch) with in-line reader assertions and a final comparison with the set-of-prefixes model, under the race detector with a GOMAXPROCS sweep',
   text='Generated scenarios preload the filter close to its 256-entry list limit, then run W writers (disjoint ranges, add/remove scripts, optional 0.0.0.0/0 toggling) against R readers so that the list-to-map migration happens while lookups are in flight. '
        'Readers assert that addresses of always-present ranges are always contained and never-present addresses never are; after the join the filter must equal the model applied to each writer\'s script (boundary probes, 4- and 16-byte). -race must stay silent, nothing may panic. '
-       'Exploration of sampled schedules, not proof.',
+       'Writers publish a sequence number around every update so that readers can assert the state of any range that was stable during their lookup, every writer reads its own writes, and TestSwitchHammer repeats the one-off list-to-maps switch thousands of times under hammering readers. Exploration of sampled schedules, not proof.',
   note='Real Go scheduler: interleavings are sampled; the migration window is short, so a torn migration is caught with high probability per run rather than certainly (measured on the mutants).',
   design='3/C12')
